@@ -1,14 +1,1004 @@
-//! C17 — not implemented yet (stub).
-use crate::report::{Cfg, Meta, Report};
+//! C17 — standard-library hash functions agree with their reference definitions.
+//!
+//! blake3::{hash_1to1, hash_2to1}, sha256::{hash_1to1, hash_2to1, hash_memory}, keccak256::hash
+//! are compared with the `blake3`, `sha2` and `sha3` crates; keccak256::{to,from}_bit_interleaved
+//! with the bit-interleaving definition they cite (Keccak implementation overview, section 2.1);
+//! native::{state_to_digest, hash_memory_even, hash_memory} with miden-crypto's `Rpo256`
+//! (`hash_elements` / `apply_permutation`), the hash the VM's own hasher chiplet is defined by.
+//!
+//! Every program is assembled once; the expectation of an evaluation is computed from the `Case`
+//! itself (stack + advice), so a witness replays without any side information.
+//!
+//! Calling conventions (from the `#!` header comments of stdlib/asm/crypto/hashes/*.masm and the way
+//! stdlib/tests/crypto/*.rs feed them; the digests themselves come from the reference crates):
+//!  * blake3: 32-bit words, little endian, `msg0` on top; digest words `dig0` on top;
+//!  * sha256: 32-bit words, big endian, `m0` on top; digest words big endian, `dig0` on top;
+//!  * sha256::hash_memory `[addr, len, ...]`: memory word `addr + k` holds message words
+//!    `u[4k .. 4k+3]` with `u[4k]` in element 3 (what `mem_storew` stores when `u[4k]` is on top);
+//!    the tail of the last 32-bit word and the padding area must be zero (contract);
+//!  * keccak256::hash: sixteen 32-bit words = eight little-endian u64 lanes as `[hi, lo]` pairs,
+//!    lane 0 on top; digest = four lanes as `[hi, lo]` pairs;
+//!  * native: a word `[w0,w1,w2,w3]` sits on the stack with `w3` on top; memory is hashed in
+//!    address order; `hash_memory` requires `start < end` (otherwise only "no panic" is required),
+//!    `hash_memory_even` requires an even number of words (never violated here: the contract says
+//!    it would loop forever).
+//!
+//! Memory-resident inputs are written by a loader prologue from the advice stack
+//! (`adv_push.4 … mem_storew`), which stores advice elements `e0 e1 e2 e3` as the word `[e0,e1,e2,e3]`.
 
-pub fn meta() -> Meta {
-    Meta { level: "exploration", rule: "stub".into(), assumptions: vec![] }
+use crate::case::{err_kind, AsmOutcome, Case, ExecOutcome};
+use crate::report::{merge_all, Cfg, Meta, Report, Tier};
+use crate::util::{hex, par_map, rng_for, Rng8, P};
+use assembly::Library;
+use processor::Program;
+use rand::Rng;
+use serde_json::json;
+use sha2::Digest as _;
+use std::collections::HashMap;
+use vm_core::crypto::hash::Rpo256;
+use vm_core::Felt;
+
+const M32: u64 = 0xFFFF_FFFF;
+const MONITOR_EVERY: usize = 200;
+
+/// copies `n` words from the advice stack to memory `ptr, ptr+1, …`; stack `[n, ptr, ...] -> [...]`
+const LOADER: &str = "
+    dup neq.0
+    while.true
+        adv_push.4
+        dup.5 mem_storew dropw
+        sub.1 swap add.1 swap
+        dup neq.0
+    end
+    drop drop
+";
+
+// PROCEDURE TABLE
+// ================================================================================================
+
+#[derive(Clone, Copy, Debug, PartialEq, Eq)]
+enum Proc {
+    Blake1,
+    Blake2,
+    Sha1,
+    Sha2,
+    ShaMem,
+    Keccak,
+    KeccakToBi,
+    KeccakFromBi,
+    NatDigest,
+    NatEven,
+    NatMem,
 }
 
-pub fn run(_cfg: &Cfg) -> Report {
-    let mut rep = Report::new();
-    rep.inconclusive("not-implemented");
+const PROCS: [Proc; 11] = [
+    Proc::Blake1,
+    Proc::Blake2,
+    Proc::Sha1,
+    Proc::Sha2,
+    Proc::ShaMem,
+    Proc::Keccak,
+    Proc::KeccakToBi,
+    Proc::KeccakFromBi,
+    Proc::NatDigest,
+    Proc::NatEven,
+    Proc::NatMem,
+];
+
+impl Proc {
+    fn module(self) -> &'static str {
+        match self {
+            Proc::Blake1 | Proc::Blake2 => "blake3",
+            Proc::Sha1 | Proc::Sha2 | Proc::ShaMem => "sha256",
+            Proc::Keccak | Proc::KeccakToBi | Proc::KeccakFromBi => "keccak256",
+            _ => "native",
+        }
+    }
+    fn name(self) -> &'static str {
+        match self {
+            Proc::Blake1 | Proc::Sha1 => "hash_1to1",
+            Proc::Blake2 | Proc::Sha2 => "hash_2to1",
+            Proc::ShaMem | Proc::NatMem => "hash_memory",
+            Proc::Keccak => "hash",
+            Proc::KeccakToBi => "to_bit_interleaved",
+            Proc::KeccakFromBi => "from_bit_interleaved",
+            Proc::NatDigest => "state_to_digest",
+            Proc::NatEven => "hash_memory_even",
+        }
+    }
+    fn full(self) -> String {
+        format!("{}::{}", self.module(), self.name())
+    }
+    fn uses_loader(self) -> bool {
+        matches!(self, Proc::ShaMem | Proc::NatEven | Proc::NatMem)
+    }
+    fn src(self) -> String {
+        let (m, n) = (self.module(), self.name());
+        format!(
+            "use.std::crypto::hashes::{m}\nbegin\n{}    exec.{m}::{n}\nend\n",
+            if self.uses_loader() { LOADER } else { "" }
+        )
+    }
+    fn from_full(s: &str) -> Option<Proc> {
+        PROCS.iter().copied().find(|p| p.full() == s)
+    }
+    /// bytes of input of the fixed-size block hashes
+    fn block_len(self) -> usize {
+        match self {
+            Proc::Blake1 | Proc::Sha1 => 32,
+            Proc::Blake2 | Proc::Sha2 | Proc::Keccak => 64,
+            _ => 0,
+        }
+    }
+}
+
+fn exported(module_path: &str) -> Vec<String> {
+    let lib = stdlib::StdLibrary::default();
+    let mut out = vec![];
+    for m in lib.modules() {
+        if m.path.as_str() == module_path {
+            for p in m.ast.procs() {
+                if p.is_export {
+                    out.push(p.name.to_string());
+                }
+            }
+            for r in m.ast.reexported_procs() {
+                out.push(r.name().to_string());
+            }
+        }
+    }
+    out.sort();
+    out
+}
+
+// ENCODINGS (calling conventions)
+// ================================================================================================
+
+fn words_le(bytes: &[u8]) -> Vec<u64> {
+    bytes.chunks(4).map(|c| u32::from_le_bytes([c[0], c[1], c[2], c[3]]) as u64).collect()
+}
+fn words_be(bytes: &[u8]) -> Vec<u64> {
+    bytes.chunks(4).map(|c| u32::from_be_bytes([c[0], c[1], c[2], c[3]]) as u64).collect()
+}
+fn bytes_le(words: &[u64]) -> Vec<u8> {
+    words.iter().flat_map(|&w| (w as u32).to_le_bytes()).collect()
+}
+fn bytes_be(words: &[u64]) -> Vec<u8> {
+    words.iter().flat_map(|&w| (w as u32).to_be_bytes()).collect()
+}
+/// keccak lanes: 8 bytes little endian -> [hi, lo]
+fn words_keccak(bytes: &[u8]) -> Vec<u64> {
+    let mut out = vec![];
+    for c in bytes.chunks(8) {
+        let w = u64::from_le_bytes([c[0], c[1], c[2], c[3], c[4], c[5], c[6], c[7]]);
+        out.push(w >> 32);
+        out.push(w & M32);
+    }
+    out
+}
+fn bytes_keccak(words: &[u64]) -> Vec<u8> {
+    let mut out = vec![];
+    for p in words.chunks(2) {
+        out.extend_from_slice(&((p[0] << 32) | p[1]).to_le_bytes());
+    }
+    out
+}
+
+fn block_words(p: Proc, bytes: &[u8]) -> Vec<u64> {
+    match p {
+        Proc::Blake1 | Proc::Blake2 => words_le(bytes),
+        Proc::Sha1 | Proc::Sha2 => words_be(bytes),
+        _ => words_keccak(bytes),
+    }
+}
+
+// MODEL
+// ================================================================================================
+
+#[derive(Clone, Debug, PartialEq, Eq)]
+enum Expect {
+    /// must succeed; these values on top (top first), followed by `case.stack[consumed..]`
+    Out { top: Vec<u64>, consumed: usize },
+    /// inputs outside the documented domain: only "no panic" is required
+    Undefined(&'static str),
+    /// the case does not have the shape this procedure's driver produces (replay of a foreign case)
+    Malformed,
+}
+
+/// memory image written by the loader prologue: stack `[n, ptr, ...]`, advice = 4n elements
+fn loaded_memory(case: &Case) -> Option<HashMap<u64, [u64; 4]>> {
+    let n = *case.stack.first()? as usize;
+    let ptr = *case.stack.get(1)?;
+    if case.advice_stack.len() < 4 * n {
+        return None;
+    }
+    let mut mem = HashMap::new();
+    for k in 0..n {
+        let e = &case.advice_stack[4 * k..4 * k + 4];
+        mem.insert(ptr + k as u64, [e[0], e[1], e[2], e[3]]);
+    }
+    Some(mem)
+}
+
+fn digest_top_first(elems: &[Felt]) -> Vec<u64> {
+    let d = Rpo256::hash_elements(elems);
+    let mut v: Vec<u64> = d.as_elements().iter().map(|e| e.as_int()).collect();
+    v.reverse();
+    v
+}
+
+fn to_bit_interleaved(w: u64) -> (u64, u64) {
+    let (mut even, mut odd) = (0u64, 0u64);
+    for i in 0..32 {
+        even |= ((w >> (2 * i)) & 1) << i;
+        odd |= ((w >> (2 * i + 1)) & 1) << i;
+    }
+    (even, odd)
+}
+
+fn from_bit_interleaved(even: u64, odd: u64) -> u64 {
+    let mut w = 0u64;
+    for i in 0..32 {
+        w |= ((even >> i) & 1) << (2 * i);
+        w |= ((odd >> i) & 1) << (2 * i + 1);
+    }
+    w
+}
+
+fn expectation(p: Proc, case: &Case) -> Expect {
+    let st = &case.stack;
+    let all32 = |v: &[u64]| v.iter().all(|&x| x <= M32);
+    match p {
+        Proc::Blake1 | Proc::Blake2 | Proc::Sha1 | Proc::Sha2 | Proc::Keccak => {
+            let nw = p.block_len() / 4;
+            if st.len() < nw {
+                return Expect::Malformed;
+            }
+            let w = &st[..nw];
+            if !all32(w) {
+                return Expect::Undefined("non-u32-word");
+            }
+            let top = match p {
+                Proc::Blake1 | Proc::Blake2 => words_le(blake3::hash(&bytes_le(w)).as_bytes()),
+                Proc::Sha1 | Proc::Sha2 => words_be(&sha2::Sha256::digest(bytes_be(w))),
+                _ => words_keccak(&sha3::Keccak256::digest(bytes_keccak(w))),
+            };
+            Expect::Out { top, consumed: nw }
+        }
+        Proc::KeccakToBi => {
+            if st.len() < 2 {
+                return Expect::Malformed;
+            }
+            if !all32(&st[..2]) {
+                return Expect::Undefined("non-u32-word");
+            }
+            let (even, odd) = to_bit_interleaved((st[0] << 32) | st[1]);
+            Expect::Out { top: vec![even, odd], consumed: 2 }
+        }
+        Proc::KeccakFromBi => {
+            if st.len() < 2 {
+                return Expect::Malformed;
+            }
+            if !all32(&st[..2]) {
+                return Expect::Undefined("non-u32-word");
+            }
+            let w = from_bit_interleaved(st[0], st[1]);
+            Expect::Out { top: vec![w >> 32, w & M32], consumed: 2 }
+        }
+        Proc::ShaMem => {
+            // [n, ptr, addr, len, ...]
+            let Some(mem) = loaded_memory(case) else { return Expect::Malformed };
+            if st.len() < 4 {
+                return Expect::Malformed;
+            }
+            let (addr, len) = (st[2], st[3]);
+            if addr > M32 || len > (1 << 20) {
+                return Expect::Undefined("address-or-length-out-of-range");
+            }
+            if mem.values().any(|w| !all32(w)) {
+                return Expect::Undefined("non-u32-word");
+            }
+            // message words in address order
+            let nwords32 = (len as usize + 3) / 4;
+            let word32 = |i: usize| -> u64 { mem.get(&(addr + (i / 4) as u64)).map(|w| w[3 - i % 4]).unwrap_or(0) };
+            let mut bytes = bytes_be(&(0..nwords32).map(word32).collect::<Vec<_>>());
+            // contract: "The padding space after the message must be all zeros"
+            let padded = len as usize + ((55usize.wrapping_sub(len as usize)) % 64) + 9;
+            let tail_zero = bytes[len as usize..].iter().all(|&b| b == 0) && (nwords32..padded / 4).all(|i| word32(i) == 0);
+            if !tail_zero {
+                return Expect::Undefined("padding-area-not-zero");
+            }
+            bytes.truncate(len as usize);
+            Expect::Out { top: words_be(&sha2::Sha256::digest(&bytes)), consumed: 4 }
+        }
+        Proc::NatMem => {
+            // [n, ptr, start, end, ...]
+            let Some(mem) = loaded_memory(case) else { return Expect::Malformed };
+            if st.len() < 4 {
+                return Expect::Malformed;
+            }
+            let (start, end) = (st[2], st[3]);
+            if start > M32 || end > M32 || start >= end {
+                return Expect::Undefined("requires-start-lt-end");
+            }
+            if end - start > 1 << 16 {
+                return Expect::Malformed;
+            }
+            let mut elems = vec![];
+            for a in start..end {
+                let w = mem.get(&a).copied().unwrap_or([0; 4]);
+                elems.extend(w.iter().map(|&x| Felt::new(x)));
+            }
+            Expect::Out { top: digest_top_first(&elems), consumed: 4 }
+        }
+        Proc::NatEven => {
+            // [n, ptr, C(4), B(4), A(4), start, end, ...]
+            let Some(mem) = loaded_memory(case) else { return Expect::Malformed };
+            if st.len() < 16 {
+                return Expect::Malformed;
+            }
+            let (start, end) = (st[14], st[15]);
+            if start > M32 || end > M32 || end < start || (end - start) % 2 != 0 || end - start > 1 << 16 {
+                // the contract says this never terminates; the driver never produces it
+                return Expect::Malformed;
+            }
+            // stack top first = state[11], state[10], …, state[0]
+            let mut state = [Felt::new(0); 12];
+            for i in 0..12 {
+                state[11 - i] = Felt::new(st[2 + i]);
+            }
+            let mut a = start;
+            while a != end {
+                let w0 = mem.get(&a).copied().unwrap_or([0; 4]);
+                let w1 = mem.get(&(a + 1)).copied().unwrap_or([0; 4]);
+                for j in 0..4 {
+                    state[4 + j] = Felt::new(w0[j]);
+                    state[8 + j] = Felt::new(w1[j]);
+                }
+                Rpo256::apply_permutation(&mut state);
+                a += 2;
+            }
+            let mut top: Vec<u64> = state.iter().rev().map(|e| e.as_int()).collect();
+            top.push(end);
+            top.push(end);
+            Expect::Out { top, consumed: 16 }
+        }
+        Proc::NatDigest => {
+            if st.len() < 12 {
+                return Expect::Malformed;
+            }
+            Expect::Out { top: st[4..8].iter().map(|&x| x % P).collect(), consumed: 12 }
+        }
+    }
+}
+
+// ONE EVALUATION
+// ================================================================================================
+
+fn witness(p: Proc, class: &str, case: &Case) -> serde_json::Value {
+    let mut w = json!({"kind": "c17", "proc": p.full(), "class": class, "case": case.to_json()});
+    if p.block_len() > 0 && case.stack.len() >= p.block_len() / 4 && case.stack.iter().take(p.block_len() / 4).all(|&x| x <= M32) {
+        let wds = &case.stack[..p.block_len() / 4];
+        let bytes = match p {
+            Proc::Blake1 | Proc::Blake2 => bytes_le(wds),
+            Proc::Sha1 | Proc::Sha2 => bytes_be(wds),
+            _ => bytes_keccak(wds),
+        };
+        w["input_hex"] = json!(hex(&bytes));
+    }
+    w
+}
+
+fn trimmed(v: &[u64]) -> &[u64] {
+    let n = v.iter().rposition(|&x| x != 0).map(|i| i + 1).unwrap_or(0);
+    &v[..n]
+}
+
+/// Executes `case` (program of `p`, already assembled) and applies the oracle.
+fn evaluate(p: Proc, prog: &Program, case: &Case, class: &str, key: &str, monitor: bool, rng: &mut Rng8, rep: &mut Report) {
+    let full = p.full();
+    let expect = expectation(p, case);
+    if expect == Expect::Malformed {
+        rep.inconclusive(format!("malformed-case-for:{full}"));
+        return;
+    }
+    let out = case.execute(prog);
+    rep.count("proc", &full);
+    rep.count("class", &format!("{full}|{class}"));
+    let oc = match &out {
+        ExecOutcome::Ok(_) => "ok".to_string(),
+        ExecOutcome::Err(e) => format!("err:{}", err_kind(e)),
+        ExecOutcome::Panic(_) => "panic".to_string(),
+    };
+    rep.count("outcome", &format!("{full}|{oc}"));
+    let tag = match &expect {
+        Expect::Out { .. } => "digest",
+        _ => "undefined",
+    };
+    rep.eval(&format!("{key}|{tag}"));
+    match (expect, out) {
+        (_, ExecOutcome::Panic(pi)) => rep.violation(
+            format!("{full}/panic/{}", pi.site()),
+            format!("{full} panicked ({}) at {}", pi.message, pi.location),
+            witness(p, class, case),
+        ),
+        (Expect::Out { top, consumed }, ExecOutcome::Ok(mut trace)) => {
+            let got: Vec<u64> = trace.stack_outputs().stack().to_vec();
+            let rest = &case.stack[consumed..];
+            let mut want = top.clone();
+            want.extend_from_slice(rest);
+            if got.len() != want.len().max(16) {
+                // VM-level depth differs only by zeros pulled in below the stack bottom
+                rep.count("vm_depth_zero_padding", &full);
+            }
+            rep.count("proc_trace_len", &format!("{full}|{}", trace_len(&trace)));
+            if trimmed(&got) != trimmed(&want) {
+                let res_ok = got.len() >= top.len() && got[..top.len()] == top[..];
+                let (sig, what) = if !res_ok {
+                    ("digest-mismatch", "result differs from the reference implementation")
+                } else {
+                    ("canary-clobbered", "stack below the operands was modified or the depth is wrong")
+                };
+                rep.violation(
+                    format!("{full}/{sig}"),
+                    format!(
+                        "{full}: {what}; class {class}; expected top {:?}, got top {:?}; rest expected {:?}, got {:?}",
+                        top,
+                        &got[..top.len().min(got.len())],
+                        trimmed(rest),
+                        trimmed(&got[top.len().min(got.len())..])
+                    ),
+                    witness(p, class, case),
+                );
+            } else {
+                if monitor {
+                    rep.count("side_monitor", &full);
+                    crate::props::c03::monitor_trace(case, &mut trace, rng, 1, 0, rep);
+                }
+                if rep.samples.len() < 6 && rng.gen_ratio(1, 8) {
+                    rep.sample(json!({"proc": full, "class": class, "stack_top_first": case.stack.iter().take(20).map(|x| x.to_string()).collect::<Vec<_>>(), "advice_len": case.advice_stack.len(), "digest_top_first": top}));
+                }
+            }
+        }
+        (Expect::Out { top, .. }, ExecOutcome::Err(e)) => rep.violation(
+            format!("{full}/unexpected-failure"),
+            format!("{full} failed with {e} on inputs inside its documented domain (class {class}); expected digest {:?}", top),
+            witness(p, class, case),
+        ),
+        (Expect::Undefined(why), o) => {
+            rep.count("undefined_domain", &format!("{full}|{why}|{}", if matches!(o, ExecOutcome::Ok(_)) { "ok" } else { "err" }));
+        }
+        (Expect::Malformed, _) => {}
+    }
+}
+
+fn trace_len(t: &processor::ExecutionTrace) -> usize {
+    use winter_prover::Trace;
+    t.length()
+}
+
+// INPUT GENERATION
+// ================================================================================================
+
+fn canary(rng: &mut Rng8, n: usize) -> Vec<u64> {
+    let mut v: Vec<u64> = vec![];
+    while v.len() < n {
+        let x = rng.gen_range((1u64 << 33)..P);
+        if !v.contains(&x) {
+            v.push(x);
+        }
+    }
+    v
+}
+
+/// number of structured patterns of an n-byte block
+fn n_structured(n: usize) -> usize {
+    12 + 8 * n + 8 * n + n + (n - 1) + (n + 1) + (n + 1) + n / 4
+}
+
+/// j-th structured n-byte block
+fn structured_block(n: usize, j: usize) -> (Vec<u8>, &'static str) {
+    let mut b = vec![0u8; n];
+    let mut j = j;
+    if j < 12 {
+        match j {
+            0 => {}
+            1 => b.fill(0xFF),
+            2 => b.fill(0x01),
+            3 => b.fill(0x80),
+            4 => b.fill(0x55),
+            5 => b.fill(0xAA),
+            6 => b.fill(0x7F),
+            7 => b.fill(0xFE),
+            8 => b.iter_mut().enumerate().for_each(|(i, x)| *x = i as u8),
+            9 => b.iter_mut().enumerate().for_each(|(i, x)| *x = 255 - i as u8),
+            10 => b.iter_mut().enumerate().for_each(|(i, x)| *x = if i % 2 == 0 { 0 } else { 0xFF }),
+            _ => b.iter_mut().enumerate().for_each(|(i, x)| *x = if i % 2 == 0 { 0xFF } else { 0 }),
+        }
+        return (b, match j { 0 => "all-zero", 1 => "all-one", _ => "const" });
+    }
+    j -= 12;
+    if j < 8 * n {
+        b[j / 8] = 1 << (j % 8);
+        return (b, "walk-one");
+    }
+    j -= 8 * n;
+    if j < 8 * n {
+        b.fill(0xFF);
+        b[j / 8] = !(1 << (j % 8));
+        return (b, "walk-zero");
+    }
+    j -= 8 * n;
+    if j < n {
+        b[j] = 0xFF;
+        return (b, "byte-ff");
+    }
+    j -= n;
+    if j < n - 1 {
+        // bit pair straddling the byte boundary j | j+1 (both byte orders are hit through LE/BE)
+        b[j] = 0x01;
+        b[j + 1] = 0x80;
+        return (b, "straddle");
+    }
+    j -= n - 1;
+    if j < n + 1 {
+        b[..j].fill(0xFF);
+        return (b, "prefix-ff");
+    }
+    j -= n + 1;
+    if j < n + 1 {
+        b[n - j..].fill(0xFF);
+        return (b, "suffix-ff");
+    }
+    j -= n + 1;
+    let w = j % (n / 4);
+    b[4 * w..4 * w + 4].fill(0xFF);
+    (b, "word-ff")
+}
+
+fn block_case(p: Proc, j: usize, rng: &mut Rng8) -> (Case, String, String) {
+    let n = p.block_len();
+    let ns = n_structured(n);
+    let (bytes, class, key) = if j < ns {
+        let (b, c) = structured_block(n, j);
+        (b, c, format!("{}|{c}|{j}", p.full()))
+    } else {
+        let mut b = vec![0u8; n];
+        match (j - ns) % 8 {
+            7 => {
+                // sparse random: few random bits
+                for _ in 0..rng.gen_range(2..6) {
+                    let k = rng.gen_range(0..8 * n);
+                    b[k / 8] |= 1 << (k % 8);
+                }
+                (b, "random-sparse", format!("{}|random-sparse", p.full()))
+            }
+            6 => {
+                // one random word, rest constant
+                b.fill(if rng.gen_bool(0.5) { 0 } else { 0xFF });
+                let w = rng.gen_range(0..n / 4);
+                for x in b[4 * w..4 * w + 4].iter_mut() {
+                    *x = rng.gen();
+                }
+                (b, "random-word", format!("{}|random-word|{w}", p.full()))
+            }
+            _ => {
+                rng.fill(&mut b[..]);
+                (b, "random", format!("{}|random", p.full()))
+            }
+        }
+    };
+    let mut stack = block_words(p, &bytes);
+    let mut class = class.to_string();
+    let mut key = key;
+    if j >= ns && (j - ns) % 64 == 63 {
+        // outside the documented domain (words must be 32-bit): only "no panic"
+        let i = rng.gen_range(0..stack.len());
+        stack[i] = [1u64 << 32, P - 1, rng.gen_range((1u64 << 32)..P)][rng.gen_range(0..3)];
+        class = "non-u32-word".into();
+        key = format!("{}|non-u32-word", p.full());
+    }
+    stack.extend(canary(rng, 8));
+    let mut c = Case::new(p.src()).with_stack(&stack);
+    c.stdlib = true;
+    (c, class, key)
+}
+
+fn bi_case(p: Proc, j: usize, rng: &mut Rng8) -> (Case, String, String) {
+    // structured: 64 single bits, 64 single zero bits, 64 low masks, constants; then random
+    let (w, class): (u64, &str) = match j {
+        0..=63 => (1u64 << j, "walk-one"),
+        64..=127 => (!(1u64 << (j - 64)), "walk-zero"),
+        128..=191 => ((1u64 << (j - 128)) - 1, "low-mask"),
+        192 => (0, "all-zero"),
+        193 => (u64::MAX, "all-one"),
+        194 => (0x5555_5555_5555_5555, "const"),
+        195 => (0xAAAA_AAAA_AAAA_AAAA, "const"),
+        196 => (0x0000_0000_FFFF_FFFF, "const"),
+        197 => (0xFFFF_FFFF_0000_0000, "const"),
+        _ => (rng.gen(), "random"),
+    };
+    let key = if j < 198 { format!("{}|{class}|{j}", p.full()) } else { format!("{}|random|{}", p.full(), w.leading_zeros() / 8) };
+    let mut stack = vec![w >> 32, w & M32];
+    stack.extend(canary(rng, 8));
+    let mut c = Case::new(p.src()).with_stack(&stack);
+    c.stdlib = true;
+    (c, class.to_string(), key)
+}
+const N_BI_STRUCT: usize = 198;
+
+const CONTENT_KINDS: usize = 6;
+fn felt_content(kind: usize, n_elems: usize, rng: &mut Rng8) -> (Vec<u64>, &'static str) {
+    match kind {
+        0 => (vec![0; n_elems], "all-zero"),
+        1 => (vec![1; n_elems], "all-one"),
+        2 => (vec![P - 1; n_elems], "all-p-1"),
+        3 => {
+            // single bit walking through the sequence
+            let mut v = vec![0u64; n_elems];
+            if n_elems > 0 {
+                let i = rng.gen_range(0..n_elems);
+                v[i] = 1u64 << rng.gen_range(0..64);
+            }
+            (v, "walk-one")
+        }
+        4 => ((0..n_elems).map(|_| crate::util::biased_felt(rng)).collect(), "boundary-mix"),
+        _ => ((0..n_elems).map(|_| rng.gen_range(0..P)).collect(), "random"),
+    }
+}
+
+const ADDRS: [u64; 10] = [0, 1, 2, 3, 1000, 65535, (1 << 20) + 7, 1 << 31, (1u64 << 32) - 4096, 123_456_789];
+
+/// native::hash_memory on `n` words at `start`; the loader also writes 2 junk words after the range
+fn nat_mem_case(n: u64, addr_i: usize, kind: usize, rng: &mut Rng8) -> (Case, String, String) {
+    let p = Proc::NatMem;
+    let start = ADDRS[addr_i % ADDRS.len()];
+    let (mut data, cname) = felt_content(kind, 4 * n as usize, rng);
+    for _ in 0..8 {
+        data.push(rng.gen_range(1..P)); // guard words after the hashed range
+    }
+    let mut stack = vec![n + 2, start, start, start + n];
+    stack.extend(canary(rng, 8));
+    let mut c = Case::new(p.src()).with_stack(&stack).with_advice(&data);
+    c.stdlib = true;
+    let class = if n == 0 { "empty-range".to_string() } else { format!("{}-{cname}", if n % 2 == 0 { "even" } else { "odd" }) };
+    let key = format!("{}|n={n}|addr{}|{cname}", p.full(), addr_i % ADDRS.len());
+    (c, class, key)
+}
+
+fn nat_even_case(n: u64, addr_i: usize, kind: usize, cap_kind: usize, rng: &mut Rng8) -> (Case, String, String) {
+    let p = Proc::NatEven;
+    let start = ADDRS[addr_i % ADDRS.len()];
+    let (mut data, cname) = felt_content(kind, 4 * n as usize, rng);
+    for _ in 0..8 {
+        data.push(rng.gen_range(1..P));
+    }
+    // C, B: overwritten when n > 0, returned unchanged when n == 0; A = capacity
+    let mut stack = vec![n + 2, start];
+    for _ in 0..8 {
+        stack.push(rng.gen_range(0..P));
+    }
+    let capname = match cap_kind % 3 {
+        0 => {
+            stack.extend([0, 0, 0, 0]);
+            "cap-zero"
+        }
+        1 => {
+            // domain-style capacity: first element set (w0 is the deepest of the four)
+            stack.extend([0, 0, 0, rng.gen_range(1..64)]);
+            "cap-w0"
+        }
+        _ => {
+            for _ in 0..4 {
+                stack.push(rng.gen_range(0..P));
+            }
+            "cap-random"
+        }
+    };
+    stack.push(start);
+    stack.push(start + n);
+    stack.extend(canary(rng, 8));
+    let mut c = Case::new(p.src()).with_stack(&stack).with_advice(&data);
+    c.stdlib = true;
+    let class = format!("{capname}-{cname}");
+    let key = format!("{}|n={n}|addr{}|{class}", p.full(), addr_i % ADDRS.len());
+    (c, class, key)
+}
+
+fn nat_digest_case(j: usize, rng: &mut Rng8) -> (Case, String, String) {
+    let p = Proc::NatDigest;
+    let (mut stack, cname) = felt_content(j % CONTENT_KINDS, 12, rng);
+    if j % CONTENT_KINDS < 3 {
+        // make the three words distinguishable
+        for (i, x) in stack.iter_mut().enumerate() {
+            *x = (*x + i as u64 * 1000) % P;
+        }
+    }
+    stack.extend(canary(rng, 8));
+    let mut c = Case::new(p.src()).with_stack(&stack);
+    c.stdlib = true;
+    (c, cname.to_string(), format!("{}|{cname}", p.full()))
+}
+
+const SHA_ADDRS: [u64; 8] = [0, 1, 17, 10000, 65533, 1 << 20, (1u64 << 31) + 5, (1u64 << 32) - 4096];
+
+fn sha_len_bucket(len: u64) -> &'static str {
+    match len % 64 {
+        0 => "0",
+        1..=54 => "1-54",
+        55 => "55",
+        56 => "56",
+        57..=62 => "57-62",
+        _ => "63",
+    }
+}
+
+fn sha_mem_case(len: u64, addr_i: usize, kind: usize, rng: &mut Rng8) -> (Case, String, String) {
+    let p = Proc::ShaMem;
+    let addr = SHA_ADDRS[addr_i % SHA_ADDRS.len()];
+    let mut bytes = vec![0u8; len as usize];
+    let cname = match kind % 4 {
+        0 => "all-zero",
+        1 => {
+            bytes.fill(0xFF);
+            "all-one"
+        }
+        2 => {
+            bytes.iter_mut().enumerate().for_each(|(i, x)| *x = i as u8);
+            "incr"
+        }
+        _ => {
+            rng.fill(&mut bytes[..]);
+            "random"
+        }
+    };
+    while bytes.len() % 16 != 0 {
+        bytes.push(0);
+    }
+    let w = words_be(&bytes);
+    let n = w.len() / 4;
+    // memory word k = [u[4k+3], u[4k+2], u[4k+1], u[4k]]
+    let mut adv = vec![];
+    for k in 0..n {
+        adv.extend([w[4 * k + 3], w[4 * k + 2], w[4 * k + 1], w[4 * k]]);
+    }
+    let mut stack = vec![n as u64, addr, addr, len];
+    stack.extend(canary(rng, 8));
+    let mut c = Case::new(p.src()).with_stack(&stack).with_advice(&adv);
+    c.stdlib = true;
+    let blocks = (len + 9 + 63) / 64;
+    let class = format!("mod64:{}|mod4:{}|{cname}", sha_len_bucket(len), len % 4);
+    let key = format!("{}|len%64={}|blocks={}|addr{}|{cname}", p.full(), len % 64, blocks.min(6), addr_i % SHA_ADDRS.len());
+    (c, class, key)
+}
+
+fn sha_structured_lens() -> Vec<u64> {
+    let mut v: Vec<u64> = (0..=130).collect();
+    v.extend([183, 184, 185, 191, 192, 193, 247, 248, 255, 256, 257, 311, 312, 319, 320, 321, 500, 503, 504, 511, 512, 513, 1000, 1023]);
+    v
+}
+
+// DRIVER
+// ================================================================================================
+
+fn assemble(p: Proc) -> Result<Box<Program>, String> {
+    let mut c = Case::new(p.src());
+    c.stdlib = true;
+    match c.assemble() {
+        AsmOutcome::Ok(p) => Ok(p),
+        AsmOutcome::Err(e) => Err(e),
+        AsmOutcome::Panic(p) => Err(format!("panic {}", p.site())),
+    }
+}
+
+pub fn meta() -> Meta {
+    Meta {
+        level: "exploration",
+        rule: "each evaluation = one execution of `use.std::crypto::hashes::M begin [loader] exec.M::PROC end` (assembled once) whose complete final stack (digest words, 8-element canary, zero tail) was compared with the reference crate (blake3 / sha2 / sha3 / miden-crypto Rpo256) on the input decoded from the case itself; inputs: all structured 32/64-byte blocks (constants, every single-bit and single-zero-bit position, every single 0xFF byte, byte-boundary straddles, all prefix/suffix fills, single words) plus random blocks; sha256::hash_memory for every length 0..130 and block-boundary lengths up to 1023 x 4 contents x 8 addresses; native hashing for every word count 0..21 (+32,33,64,65) x 10 addresses x 6 element classes (x 3 capacity kinds for hash_memory_even); distinct = distinct (procedure, input class, pattern index | length, address and content class)".into(),
+        assumptions: vec![
+            "crates blake3, sha2, sha3 and miden-crypto's Rpo256 are the reference definitions".into(),
+            "input/output encodings (endianness, word order, memory layout) are taken from the header comments and from how stdlib/tests/crypto feed the procedures; a wrong encoding cannot make digests agree".into(),
+            "memory side effects of the procedures are not observed, only the final stack".into(),
+            "random blocks are sampled; 2^256 / 2^512 inputs are not enumerated".into(),
+        ],
+    }
+}
+
+struct Plan {
+    /// number of items per procedure
+    n: [usize; 11],
+    sha_lens: Vec<u64>,
+    nat_ns: Vec<u64>,
+    even_ns: Vec<u64>,
+}
+
+fn plan(cfg: &Cfg) -> Plan {
+    let sha_lens = sha_structured_lens();
+    let mut nat_ns: Vec<u64> = (0..=21).collect();
+    nat_ns.extend([32, 33, 64, 65]);
+    let mut even_ns: Vec<u64> = (0..=10).map(|k| 2 * k).collect();
+    even_ns.extend([32, 64]);
+    let r = |q: usize, t: usize| cfg.n(q, t);
+    let n = [
+        n_structured(32) + r(4_000, 400_000),                                   // blake3 1to1
+        n_structured(64) + r(4_000, 400_000),                                   // blake3 2to1
+        n_structured(32) + r(2_500, 200_000),                                   // sha256 1to1
+        n_structured(64) + r(2_000, 120_000),                                   // sha256 2to1
+        sha_lens.len() * 4 + r(1_200, 60_000),                                  // sha256 hash_memory
+        n_structured(64) + r(500, 24_000),                                      // keccak256 hash
+        N_BI_STRUCT + r(3_000, 100_000),                                        // to_bit_interleaved
+        N_BI_STRUCT + r(3_000, 100_000),                                        // from_bit_interleaved
+        r(3_000, 100_000),                                                      // state_to_digest
+        even_ns.len() * ADDRS.len() * CONTENT_KINDS * 3 + r(2_000, 200_000),    // hash_memory_even
+        nat_ns.len() * ADDRS.len() * CONTENT_KINDS + r(3_000, 300_000),         // hash_memory
+    ];
+    Plan { n, sha_lens, nat_ns, even_ns }
+}
+
+fn make_case(p: Proc, j: usize, pl: &Plan, rng: &mut Rng8) -> (Case, String, String) {
+    match p {
+        Proc::Blake1 | Proc::Blake2 | Proc::Sha1 | Proc::Sha2 | Proc::Keccak => block_case(p, j, rng),
+        Proc::KeccakToBi | Proc::KeccakFromBi => bi_case(p, j, rng),
+        Proc::NatDigest => nat_digest_case(j, rng),
+        Proc::ShaMem => {
+            let ns = pl.sha_lens.len() * 4;
+            if j < ns {
+                sha_mem_case(pl.sha_lens[j / 4], j, j % 4, rng)
+            } else {
+                let len = match rng.gen_range(0..4) {
+                    0 => rng.gen_range(0..1024),
+                    1 => 64 * rng.gen_range(0..8u64) + [0, 1, 54, 55, 56, 57, 62, 63][rng.gen_range(0..8)],
+                    _ => rng.gen_range(0..300),
+                };
+                sha_mem_case(len, rng.gen_range(0..8), 3, rng)
+            }
+        }
+        Proc::NatMem => {
+            let ns = pl.nat_ns.len() * ADDRS.len() * CONTENT_KINDS;
+            if j < ns {
+                let n = pl.nat_ns[j / (ADDRS.len() * CONTENT_KINDS)];
+                nat_mem_case(n, j / CONTENT_KINDS % ADDRS.len(), j % CONTENT_KINDS, rng)
+            } else {
+                let n = if rng.gen_ratio(1, 10) { rng.gen_range(22..200) } else { rng.gen_range(1..22) };
+                nat_mem_case(n, rng.gen_range(0..ADDRS.len()), rng.gen_range(3..CONTENT_KINDS), rng)
+            }
+        }
+        Proc::NatEven => {
+            let per_n = ADDRS.len() * CONTENT_KINDS * 3;
+            let ns = pl.even_ns.len() * per_n;
+            if j < ns {
+                let n = pl.even_ns[j / per_n];
+                nat_even_case(n, j / (CONTENT_KINDS * 3) % ADDRS.len(), j / 3 % CONTENT_KINDS, j % 3, rng)
+            } else {
+                let n = 2 * if rng.gen_ratio(1, 10) { rng.gen_range(11..100) } else { rng.gen_range(0..11u64) };
+                nat_even_case(n, rng.gen_range(0..ADDRS.len()), rng.gen_range(3..CONTENT_KINDS), rng.gen_range(0..3), rng)
+            }
+        }
+    }
+}
+
+pub fn run(cfg: &Cfg) -> Report {
+    crate::props::c16::tune_allocator();
+    let mut head = Report::new();
+    // every exported procedure of the four modules must be in the table
+    for m in ["blake3", "sha256", "keccak256", "native"] {
+        let exp = exported(&format!("std::crypto::hashes::{m}"));
+        head.note(&format!("exports_{m}"), json!(exp));
+        head.floor(!exp.is_empty(), &format!("exports-of-{m}-enumerated"));
+        for e in &exp {
+            if !PROCS.iter().any(|p| p.module() == m && p.name() == e) {
+                head.inconclusive(format!("exported-procedure-without-oracle:{m}::{e}"));
+            }
+        }
+        for p in PROCS.iter().filter(|p| p.module() == m) {
+            if !exp.iter().any(|e| e == p.name()) {
+                head.inconclusive(format!("procedure-not-exported:{}", p.full()));
+            }
+        }
+    }
+    let mut progs: Vec<Box<Program>> = vec![];
+    for p in PROCS {
+        match assemble(p) {
+            Ok(x) => progs.push(x),
+            Err(e) => {
+                head.inconclusive(format!("cannot-assemble:{}:{}", p.full(), crate::report::truncate(&e, 80)));
+                return head;
+            }
+        }
+    }
+    let pl = plan(cfg);
+    // global work list: item g -> (procedure, j); expensive procedures are interleaved with cheap
+    // ones by striding so that shards finish together
+    let mut items: Vec<(usize, usize)> = vec![];
+    for (pi, &n) in pl.n.iter().enumerate() {
+        for j in 0..n {
+            items.push((pi, j));
+        }
+    }
+    let shards = 256usize;
+    let reports = par_map(shards, |sh| {
+        let mut rep = Report::new();
+        let mut mon_rng = rng_for(cfg.seed, "C17", (1u64 << 40) + sh as u64);
+        for (g, &(pi, j)) in items.iter().enumerate() {
+            if g % shards != sh {
+                continue;
+            }
+            let p = PROCS[pi];
+            let mut rng = rng_for(cfg.seed, "C17", ((pi as u64) << 32) | j as u64);
+            let (case, class, key) = make_case(p, j, &pl, &mut rng);
+            if p == Proc::ShaMem {
+                let len = case.stack[3];
+                rep.count("sha256_hash_memory_len_mod64", sha_len_bucket(len));
+                rep.count("sha256_hash_memory_len_mod4", &(len % 4).to_string());
+                rep.count("sha256_hash_memory_blocks", &((len + 9 + 63) / 64).min(17).to_string());
+            }
+            if p == Proc::NatMem || p == Proc::NatEven {
+                let (s, e) = if p == Proc::NatMem { (case.stack[2], case.stack[3]) } else { (case.stack[14], case.stack[15]) };
+                rep.count(&format!("{}_words", p.name()), &(e - s).min(66).to_string());
+                rep.count(&format!("{}_addr", p.name()), &s.to_string());
+            }
+            let monitor = j % MONITOR_EVERY == MONITOR_EVERY / 2;
+            evaluate(p, &progs[pi], &case, &class, &key, monitor, &mut mon_rng, &mut rep);
+        }
+        rep
+    });
+    let mut rep = merge_all(reports);
+    rep.merge(head);
+
+    // floors
+    let min = if cfg.tier == Tier::Quick { 300 } else { 3000 };
+    for p in PROCS {
+        let full = p.full();
+        rep.floor(rep.get_count("proc", &full) >= min, &format!("{full}-exercised-{min}x"));
+        rep.floor(rep.get_count("outcome", &format!("{full}|ok")) >= min / 2, &format!("{full}-succeeded-{}x", min / 2));
+    }
+    for p in [Proc::Blake1, Proc::Blake2, Proc::Sha1, Proc::Sha2, Proc::Keccak] {
+        let full = p.full();
+        let n = p.block_len() as u64;
+        rep.floor(rep.get_count("class", &format!("{full}|walk-one")) == 8 * n, &format!("{full}-every-single-bit-position"));
+        rep.floor(rep.get_count("class", &format!("{full}|walk-zero")) == 8 * n, &format!("{full}-every-single-zero-bit-position"));
+        rep.floor(rep.get_count("class", &format!("{full}|byte-ff")) == n, &format!("{full}-every-byte-position"));
+        for c in ["all-zero", "all-one", "random"] {
+            rep.floor(rep.get_count("class", &format!("{full}|{c}")) >= 1, &format!("{full}-{c}"));
+        }
+    }
+    for b in ["0", "1-54", "55", "56", "57-62", "63"] {
+        rep.floor(rep.get_count("sha256_hash_memory_len_mod64", b) >= 8, &format!("sha256::hash_memory-length-mod-64-class-{b}"));
+    }
+    for b in 0..4 {
+        rep.floor(rep.get_count("sha256_hash_memory_len_mod4", &b.to_string()) >= 20, &format!("sha256::hash_memory-length-mod-4-class-{b}"));
+    }
+    for b in 1..=3 {
+        rep.floor(rep.get_count("sha256_hash_memory_blocks", &b.to_string()) >= 8, &format!("sha256::hash_memory-{b}-blocks"));
+    }
+    for n in 0..=10u64 {
+        // 4n elements = 0, 4, …, 40
+        rep.floor(rep.get_count("hash_memory_words", &n.to_string()) >= 20, &format!("native::hash_memory-{}-elements", 4 * n));
+        if n % 2 == 0 {
+            rep.floor(rep.get_count("hash_memory_even_words", &n.to_string()) >= 20, &format!("native::hash_memory_even-{}-elements", 4 * n));
+        }
+    }
+    rep.floor(rep.hist_len("hash_memory_addr") >= 8 && rep.hist_len("hash_memory_even_addr") >= 8, "native-hashing-at-8-memory-offsets");
+    rep.floor(rep.hist_len("side_monitor") >= 8, "side-monitor-saw-8-procedures");
     rep
 }
 
-pub fn replay(_v: &serde_json::Value, _rep: &mut Report) {}
+pub fn replay(v: &serde_json::Value, rep: &mut Report) {
+    let Some(case) = v.get("case").and_then(Case::from_json) else { return };
+    let Some(p) = v.get("proc").and_then(|x| x.as_str()).and_then(Proc::from_full) else {
+        // a side-monitor (C03) witness: plain case
+        let mut rng = rng_for(0, "C17-replay", 0);
+        crate::props::c03::run_case(&case, &mut rng, rep, false);
+        return;
+    };
+    let prog = match assemble(p) {
+        Ok(x) => x,
+        Err(e) => {
+            rep.inconclusive(format!("replay:cannot-assemble:{e}"));
+            return;
+        }
+    };
+    let mut rng = rng_for(0, "C17-replay", 0);
+    let class = v.get("class").and_then(|c| c.as_str()).unwrap_or("replay").to_string();
+    evaluate(p, &prog, &case, &class, &format!("{}|replay", p.full()), true, &mut rng, rep);
+}
